@@ -396,8 +396,12 @@ def rule_acquire_release(ctx: Ctx) -> None:
                     k = increment_of(n.ast, attr)
                     if k not in (None, "other"):
                         net += k
-            if net != 0:
-                bad.append(f"path [{p.describe()[:100]}] leaves the in-service count changed by {net}")
+            # a unit handed to the queue head (the hand-off event is remembered in `_handed_off`) stays in service on behalf of that event, and
+            # a cycle started for such an event (`reserved`) did not take a unit itself: net == [handed off] − [started reserved]
+            handed = sum(1 for n in p.nodes if n.kind == "stmt" and any(path_of(k.func) == "self._handed_off.add" for k in calls_in(n.ast)))
+            reserved = 1 if p.decided(lambda t: t == "reserved") is True else 0
+            if net != handed - reserved:
+                bad.append(f"path [{p.describe()[:100]}] leaves the in-service count changed by {net} (handed off {handed}, started reserved {reserved})")
         tries = [s for s in walk_stmts(fn.node.body) if isinstance(s, ast.Try) and s.finalbody and any(increment_of(x, attr) == -1 for x in s.finalbody)]
         ctx.ob("C08-5", "G2", fn, tries[0] if tries else None, not bad and bool(tries), f"{fn.qual}: the in-service count is restored on every exit (decrement in `finally`)" + ("" if not bad else " — " + bad[0]))
     asv = prog.func(ASRV, "AsyncServer.handle_event")
@@ -483,6 +487,16 @@ def rule_capacity_rise_repolls(ctx: Ctx) -> None:
             ws = [s_ for s_ in walk_stmts(m.node.body) if isinstance(s_, (ast.Assign, ast.AugAssign)) and any(path_of(t_) == cap for t_ in (s_.targets if isinstance(s_, ast.Assign) else [s_.target]))]
             for w in ws:
                 n_w += 1
+                # exempt: the write is part of handling an arriving item and that very item is enqueued afterwards on every path
+                # (`super().handle_event(event)`): the enqueue itself notifies the driver when the queue was empty, and it was — nothing
+                # could have been queued before the first item
+                mf0 = ctx.flow(m)
+                wn0 = node_of(mf0.cfg, w)
+                enq = [nd for nd in mf0.cfg.nodes if nd.kind == "stmt" and any(unparse(k.func).replace(" ", "") == "super().handle_event" for k in calls_in(nd.ast))]
+                first_item = all(p_.decided(lambda t: t == "self._initialized") is False for p_ in enumerate_paths(mf0, mf0.cfg.entry, stop=lambda x: x is wn0) if p_.end == "stop" and p_.nodes[-1] is wn0)
+                if enq and first_item and all(any(any(nd is e_ for e_ in enq) for nd in p_.nodes) for p_ in enumerate_paths(mf0, wn0, stop=lambda x: x is mf0.cfg.exit) if p_.end in ("exit", "stop")):
+                    ctx.ob("C08-7", "G2", m, w, True, f"{c.name}.{m.name}: capacity set while handling the first arriving item, which is then enqueued (the enqueue notifies the driver)")
+                    continue
                 notes = [k for k in calls_in(m.node) if path_of(k.func) == "QueueNotifyEvent"
                          and {kw.arg: unparse(kw.value) for kw in k.keywords}.get("target") in ("self.driver", "self._driver")
                          and {kw.arg: unparse(kw.value) for kw in k.keywords}.get("time") == "self.now"]
@@ -583,7 +597,63 @@ def rule_timer_handle_not_stale(ctx: Ctx) -> None:
     need(n >= 2, f"C08-8: expected >= 2 cancel/clear sites of an armed timer handle inside generator handlers (BatchProcessor), found {n}")
 
 
+def rule_hunted_industrial(ctx: Ctx) -> None:
+    """C08-7/C08-1 (hunted defects): capacity that comes back or is first established must be looked at by the driver, and a unit handed to the
+    queue head is reserved for it.
+    (a) ShiftedServer starts its shift chain on the first item with the schedule's capacity *for that time* (boundaries before the first arrival
+        were never processed);
+    (b) a component that takes another entity out of service and puts it back (`<target>._broken = False`) notifies that entity's queue driver;
+    (c) PooledCycleResource reserves the freed unit when it pops the queue head and remembers the hand-off event, so a same-instant arrival
+        cannot take the unit and jump the queue."""
+    prog = ctx.prog
+    he = prog.func(SHIFT, "ShiftedServer.handle_event")
+    hf = ctx.flow(he)
+    chain = [nd for nd in hf.cfg.nodes if nd.kind == "stmt" and any(path_of(k.func) == "self._schedule_next_shift" for k in calls_in(nd.ast))]
+    caps = [nd for nd in hf.cfg.nodes if nd.kind == "stmt" and isinstance(nd.ast, ast.Assign) and path_of(nd.ast.targets[0]) == "self._current_capacity"
+            and isinstance(nd.ast.value, ast.Call) and path_of(nd.ast.value.func) == "self.schedule.capacity_at" and "self.now" in unparse(nd.ast.value)]
+    ok = len(chain) == 1 and bool(caps) and not always_before(ctx, he, lambda x: any(x is c_ for c_ in caps), lambda x: x is chain[0])
+    ctx.ob("C08-7", "G2", he, chain[0].ast if chain else None, ok, "ShiftedServer: when the shift-change chain is started (first item) the capacity in force is first set to `schedule.capacity_at(now)` — "
+           "a shift that began before the first arrival is on duty")
+    n_b = 0
+    for fn in prog.all_functions("happysimulator/components/industrial/"):
+        ups = [s_ for s_ in walk_stmts(fn.node.body) if isinstance(s_, ast.Assign) and isinstance(s_.targets[0], ast.Attribute) and s_.targets[0].attr == "_broken" and path_of(s_.targets[0].value) not in (None, "self")
+               and isinstance(s_.value, ast.Constant) and s_.value.value is False and fn.name not in ("__init__", "__post_init__")]
+        for u in ups:
+            n_b += 1
+            tgt = path_of(u.targets[0].value)
+            ff = ctx.flow(fn)
+            un = node_of(ff.cfg, u)
+            notes = [nd for nd in ff.cfg.nodes if nd.kind == "stmt" and any(path_of(k.func) == "QueueNotifyEvent" for k in calls_in(nd.ast))]
+            drv = [s_ for s_ in walk_stmts(fn.node.body) if isinstance(s_, ast.Assign) and unparse(s_.value).replace(" ", "") in (f"getattr({tgt},'driver',None)", f"{tgt}.driver")]
+            okb = bool(notes) and bool(drv)
+            if okb:
+                dname = path_of(drv[0].targets[0])
+                for p_ in enumerate_paths(ff, un, stop=lambda x: x is ff.cfg.exit):
+                    if p_.end not in ("exit", "stop"):
+                        continue
+                    sent = any(any(nd is x for x in notes) for nd in p_.nodes)
+                    no_driver = p_.decided(lambda t: t == f"{dname}isnotNone") is False or p_.decided(lambda t: t.endswith("isnotNone") and t != f"{dname}isnotNone") is False
+                    if not (sent or no_driver):
+                        okb = False
+            ctx.ob("C08-7", "G2", fn, u, okb, f"{fn.qual}: putting `{tgt}` back in service is followed by a queue notify to its driver whenever it has one (a queue-fronted target fetches work only on a notify or a completion)")
+    need(n_b >= 1, "C08-7: no repair site (`<target>._broken = False`) found in components/industrial")
+    sc = [f for f in prog.module(POOLED).all_functions if f.name == "_start_cycle"]
+    need(sc, "C08-1: PooledCycleResource._start_cycle missing")
+    sc = sc[0]
+    pops = [s_ for s_ in walk_stmts(sc.node.body) if isinstance(s_, ast.Assign) and isinstance(s_.value, ast.Call) and (path_of(s_.value.func) or "").endswith(("popleft", "pop")) and "self._queue" in unparse(s_.value)]
+    okc = False
+    if len(pops) == 1:
+        blk = [b for x in ast.walk(sc.node) for fld in ("body", "orelse", "finalbody") for b in [getattr(x, fld, None)] if isinstance(b, list) and pops[0] in b]
+        if blk:
+            rest = blk[0][blk[0].index(pops[0]):]
+            okc = any(increment_of(x, "self._available") == -1 for x in rest) and any(increment_of(x, "self._active") == 1 for x in rest) \
+                and any(isinstance(x, ast.Expr) and isinstance(x.value, ast.Call) and path_of(x.value.func) == "self._handed_off.add" for x in rest)
+    ctx.ob("C08-1", "G2", sc, pops[0] if pops else None, okc, "PooledCycleResource: popping the queue head reserves the freed unit for it (available −1, active +1) and remembers the hand-off event — "
+           "the head keeps its place against same-instant arrivals")
+
+
 def run(ctx: Ctx) -> None:
+    ctx.guarded(rule_hunted_industrial)
     ctx.guarded(rule_policy_contract)
     ctx.guarded(rule_ordering)
     ctx.guarded(rule_queue_entity)
@@ -597,6 +667,9 @@ CODEL = QPS + "codel.py"
 DEADL = QPS + "deadline_queue.py"
 FAIR = QPS + "fair_queue.py"
 MUTANTS = [
+    ("shifted-server-first-item-keeps-t0-capacity", SHIFT, "            self._current_capacity = self.schedule.capacity_at(self.now.to_seconds())\n            next_event = self._schedule_next_shift()", "            next_event = self._schedule_next_shift()", "C08-7"),
+    ("breakdown-repair-does-not-notify", "happysimulator/components/industrial/breakdown.py", "                events.append(QueueNotifyEvent(time=self.now, target=driver, queue_entity=queue))\n", "                pass\n", "C08-7"),
+    ("pooled-handoff-not-reserved", POOLED, "            self._handed_off.add(handoff)\n", "", "C08-1"),
     ("driver-notify-polls-while-poll-outstanding", QD, "        if self._poll_in_flight():\n            # One poll per free slot: the delivery of the outstanding poll is\n            # followed by a re-check, which polls again if capacity remains.\n            self._poll_wanted = True\n            return []\n\n", "", "C08-6"),
     ("driver-delivery-keeps-poll-record", QD, "        self._poll_sent_at = None\n        if event.payload is None:", "        if event.payload is None:", "C08-6"),
     ("queue-empty-poll-unanswered", Q, "            if event.requestor is None:\n                return []\n", "            return []\n", "C08-6"),
